@@ -14,6 +14,7 @@ import TonVerif.Proofs.SrcArith
 import TonVerif.Generated.CellArith
 import TonVerif.Proofs.SrcCellCtor
 import TonVerif.Proofs.SrcCellEntry
+import TonVerif.Proofs.CellTwins
 
 namespace TonVerif.Properties.C01
 open TonVerif TonVerif.Model TonVerif.Proofs.OrdCell
@@ -263,5 +264,64 @@ example : pyeq (other := ⟨-1, [], 0, 0, [[1, 2]], [0]⟩) (self__hash := [1, 2
     pyeq (other := ⟨-1, [], 0, 0, [[1, 3]], [0]⟩) (self__hash := [1, 2]) = some false ∧ pyhash (self__hash := [1, 2]) = some 258 := by decide
 
 end SrcEntry
+
+/-! ## a tree next to its pruned twin (round 10)
+
+An ordinary cell above a pruned branch has level > 0 and several hashes: `get_hash(0)` is the hash of the tree it stands for - the
+same as that of the unpruned tree - while `Cell.hash` (the representation hash, the identity of the cell) is the last one. `==` and
+dictionary keys must follow the representation hash: a tree and its pruned twin are DIFFERENT cells although their level-0 hashes,
+bits and kinds agree. -/
+section Twins
+open TonVerif.Generated.CellEntry TonVerif.Proofs.SrcCellEntry TonVerif.Proofs.CellTwins
+
+/-- for ALL infos `a`, `b` (any kind, bits, stored hashes) with their child infos: if the cached hashes are the hashes of the
+representations (`c01_repr_agrees` / `c01_src_repr_agrees` give this for constructed cells), the level masks differ (a tree vs. the same
+tree with a sub-tree pruned, or pruned for another Merkle depth) and `H` does not collide on these two representations, then `==`
+(model and regenerated `__eq__`) is `False` and the dict keys (`__hash__`, model and regenerated) differ - whatever the level-0
+hashes are. -/
+theorem c01_twins_unequal (H : Bytes → Bytes) (a b : CellInfo) (ka kb : List CellInfo) (ra rb : Bytes)
+    (ha : representation a ka = some ra) (hb : representation b kb = some rb) (hha : a.hash = H ra) (hhb : b.hash = H rb)
+    (hna : a.nrefs < 8) (hnb : b.nrefs < 8) (hm : a.mask ≠ b.mask) (nocoll : H ra = H rb → ra = rb) :
+    a.pyEq b = false ∧ pyeq (other := b) (self__hash := a.hash) = some false ∧
+      (Bytes.WF a.hash → Bytes.WF b.hash → a.hash.length = b.hash.length →
+        a.pyHash ≠ b.pyHash ∧ pyhash (self__hash := a.hash) ≠ pyhash (self__hash := b.hash)) := by
+  have hne : a.hash ≠ b.hash := by
+    intro he
+    rw [hha, hhb] at he
+    exact representation_ne_of_mask_ne a b ka kb ra rb ha hb hna hnb hm (nocoll he)
+  have hq : a.pyEq b = false := by
+    cases h : a.pyEq b with
+    | false => rfl
+    | true => exact absurd ((c01_eq_iff_hash a b).1 h) hne
+  refine ⟨hq, by rw [pyeq_eq, hq], ?_⟩
+  intro wa wb hl
+  have hp : a.pyHash ≠ b.pyHash := fun h => hne ((c01_pyhash_iff_hash a b wa wb hl).1 h)
+  refine ⟨hp, ?_⟩
+  rw [pyhash_eq, pyhash_eq]
+  intro h
+  exact hp (Option.some.inj h)
+
+/-! Non-vacuity with the injective "hash" `H = id`: a 240-bit leaf (its representation is 32 bytes long, so a pruned branch can store
+it), the pruned branch of that leaf, and the two parents `[1] -> leaf` and `[1] -> pruned(leaf)` built by the model constructor: a
+tree next to its pruned twin - same bits, kind and level-0 hash, different level mask - meets every hypothesis. -/
+def Hid : Bytes → Bytes := fun x => x
+def twinLeaf : Option CellInfo := construct Hid (-1) (List.replicate 240 true) []
+def twinPruned : Option CellInfo := twinLeaf.bind (fun l => construct Hid 1 (bytesToBits ([1, 1] ++ l.hash ++ [0, 0])) [])
+def twinA : Option CellInfo := twinLeaf.bind (fun l => construct Hid (-1) [true] [l])
+def twinB : Option CellInfo := twinPruned.bind (fun p => construct Hid (-1) [true] [p])
+def twinCheck : Bool :=
+  match twinLeaf, twinPruned, twinA, twinB with
+  | some l, some p, some a, some b =>
+    match representation a [l], representation b [p] with
+    | some ra, some rb =>
+      decide (a.hash = Hid ra) && decide (b.hash = Hid rb) && decide (a.nrefs < 8) && decide (b.nrefs < 8) &&
+        decide (a.mask ≠ b.mask) && decide (a.getHash 0 = b.getHash 0) && decide (a.bits = b.bits) && decide (a.kind = b.kind) &&
+        decide (a.hash ≠ b.hash)
+    | _, _ => false
+  | _, _, _, _ => false
+example : twinCheck = true := by decide +kernel
+example (x y : Bytes) (h : Hid x = Hid y) : x = y := h
+
+end Twins
 
 end TonVerif.Properties.C01
